@@ -50,7 +50,7 @@ FUNCTIONS = [(CK, "IntegrityChecker.check"), (CK, "check_dataset"),
         "check_metadata_missing", "check_temperature_zero_zmd")]
 BOUNDS = {
     "quick": {"events": 3, "datasets": "scalar-only / +image / +image+mask "
-              "/ +fluorescence (fl1_max, fl2_max, trace) / trace without "
+              "/ +mask only / +fluorescence (fl1_max, fl2_max, trace) / trace without "
               "fl?_max", "corruptions": "every single corruption kind with "
               "symbolic parameter (new length 0..5, new event count, new ROI "
               "size, new index value, counts, laser power, set-up value: "
@@ -165,7 +165,7 @@ def build(eng, p):
                                             for i in range(N)], np.uint8,
                                            (H, WID)))
             g.len["image"], g.shape["image"] = N, (H, WID)
-        if kind == "mask":
+        if kind in ("mask", "maskonly"):
             hw.store_feature("mask", np.arange(N * H * WID).reshape(
                 N, H, WID) % 2 == 0)
             g.len["mask"], g.shape["mask"] = N, (H, WID)
@@ -637,6 +637,7 @@ SINGLE = {
     "image": [("len", "image"), ("roi", "roi size x"), ("roi", "roi size y"),
               ("count",)],
     "mask": [("len", "mask"), ("roi", "roi size x"), ("roi", "roi size y")],
+    "maskonly": [("roi", "roi size x"), ("len", "mask")],
     "fl": [("len", "trace/fl1_raw"), ("len", "fl1_max"), ("chcount",),
            ("lasercount",), ("laserpower", 1), ("spe",), ("count",)],
     "trace": [("chcount",), ("lasercount",), ("spe",),
@@ -647,7 +648,7 @@ SINGLE = {
 def cases(tier, seed):
     from dclab.rtdc_dataset import check as ckmod
     out = []
-    for ds in ("scalar", "image", "mask", "fl", "trace"):
+    for ds in ("scalar", "image", "mask", "maskonly", "fl", "trace"):
         out.append(("closure %s" % ds, dict(ds=ds, corrupt=[], copy=True)))
         out.append(("closure %s stale metadata" % ds,
                     dict(ds=ds, corrupt=[], copy=True, stale=True)))
@@ -703,7 +704,7 @@ def _concrete_ghost(p, vals):
         g.len[ft] = N
     if kind in ("image", "mask"):
         g.len["image"], g.shape["image"] = N, (H, WID)
-    if kind == "mask":
+    if kind in ("mask", "maskonly"):
         g.len["mask"], g.shape["mask"] = N, (H, WID)
     if kind in ("fl", "trace"):
         g.len["trace/fl1_raw"] = N
@@ -736,7 +737,7 @@ def _real_file(path, p, vals):
         if p["ds"] in ("image", "mask"):
             hw.store_feature("image", np.arange(N * H * WID).reshape(
                 N, H, WID).astype(np.uint8))
-        if p["ds"] == "mask":
+        if p["ds"] in ("mask", "maskonly"):
             hw.store_feature("mask", np.arange(N * H * WID).reshape(
                 N, H, WID) % 2 == 0)
         if p["ds"] in ("fl", "trace"):
@@ -945,7 +946,7 @@ def validate(tier, seed):
     """the specification + concrete pipeline accept the real code on the
     uncorrupted datasets and on in-range single corruptions"""
     mism, n = [], 0
-    for ds in ("scalar", "image", "mask", "fl"):
+    for ds in ("scalar", "image", "mask", "maskonly", "fl"):
         n += 1
         with quiet():
             f = concrete(dict(ds=ds, corrupt=[], copy=True), {})
